@@ -183,6 +183,29 @@ theorem C03_punct_comma (eol : List Char) (vTrail vLead : List Out) (pl pt : Lis
     commentsOut (prependNewlineIndent vLead) = commentsOut vLead :=
   ⟨PunctLemmas.after_comments eol vTrail pl pt, PunctLemmas.prepend_comments vLead⟩
 
+/-! ## call sugar: parentheses dropped or added around a single string argument (format_function_args) -/
+
+/-- **parentheses added** (`f "x"` → `f("x")`): the comments in front of and behind the argument are all kept, those
+behind it moved behind the new `)` -/
+theorem C03_sugar_add (eol : List Char) (al at' : List Triv) :
+    commentsOut (Sugar.addParens eol al at').1 ++ commentsOut (Sugar.addParens eol al at').2 =
+      SemiLemmas.norm eol (commentsIn al) ++ SemiLemmas.norm eol (commentsIn at') :=
+  SugarLemmas.add_comments eol al at'
+
+/-- **parentheses dropped** (`f("x")` → `f "x"`), the statement that holds of the code: the comments of the argument
+itself and those behind `)` are kept ... -/
+theorem C03_sugar_drop_partial (eol : List Char) (ol ot al at' cl ct : List Triv) :
+    commentsOut (Sugar.dropParens eol ol ot al at' cl ct).1 ++ commentsOut (Sugar.dropParens eol ol ot al at' cl ct).2 =
+      SemiLemmas.norm eol (commentsIn al) ++ SemiLemmas.norm eol (commentsIn at') ++ SemiLemmas.norm eol (commentsIn ct) :=
+  SugarLemmas.drop_comments eol ol ot al at' cl ct
+
+/-- ... and those in front of `(`, behind `(` and in front of `)` are not (`f( --[[c]] "x")` under
+call_parentheses = None loses `c`: D5, reproduced on the binary, listed among the generated findings) -/
+theorem C03_sugar_drop_loses_paren_comments :
+    let c : List Triv := [.comment (.block 0) ['c']]
+    commentsOut (Sugar.dropParens ['\n'] c c [] [] c []).1 ++ commentsOut (Sugar.dropParens ['\n'] c c [] [] c []).2 = [] := by
+  decide
+
 /-! ## non-vacuity -/
 example : commentsOut (load ['\n'] .leading
     [.ws true, .ws true, .comment .line "a  ".toList, .ws true, .comment (.block 1) "b\r\nc".toList, .ws true])
